@@ -335,8 +335,38 @@ _orders = set()
 
 def _guarded(mon: Monitor, cfg, workdir: str) -> None:
     """A file the independent readers cannot even open or decode is a violation of the property, not a monitor error."""
+    import signal
+    import threading
+
+    import tifffile
+
+    class _Hang(BaseException):
+        pass
+
+    def _on_alarm(signum, frame):
+        raise _Hang("wall-clock")
+
+    # logical bound: the layout pass writes a header and one (empty) entry per tile; no configuration has more than ~10^4 tiles
+    orig_write, nwrites = tifffile.FileHandle.write, [0]
+
+    def counted(self, *a, **k):
+        nwrites[0] += 1
+        if nwrites[0] > WRITE_BOUND:
+            raise _Hang("logical")
+        return orig_write(self, *a, **k)
+
+    tifffile.FileHandle.write = counted
+    armed = threading.current_thread() is threading.main_thread()
+    if armed:
+        old = signal.signal(signal.SIGALRM, _on_alarm)
+        signal.alarm(CONFIG_WATCHDOG_S)
     try:
         run_config(mon, cfg, workdir)
+    except _Hang as h:
+        if str(h) == "logical":
+            mon.fail("save", {**cfg, "why": f"more than {WRITE_BOUND} writes through tifffile's file handle while laying out / reading one small file: the call does not terminate"}, key="save-does-not-terminate")
+        else:
+            mon.error("config-watchdog", TimeoutError(f"configuration did not finish within {CONFIG_WATCHDOG_S} s (wall clock: inconclusive, not a verdict): {cfg}"))
     except Exception as e:  # noqa: BLE001
         import traceback
 
@@ -346,9 +376,21 @@ def _guarded(mon: Monitor, cfg, workdir: str) -> None:
             mon.fail("readers", {**cfg, "exc": e, "where": [f"{os.path.basename(f.filename)}:{f.name}" for f in tb][-4:]}, key="file-unreadable")
         else:
             mon.error("config", e)
+    finally:
+        tifffile.FileHandle.write = orig_write
+        if armed:
+            signal.alarm(0)
+            signal.signal(signal.SIGALRM, old)
 
+
+CONFIG_WATCHDOG_S = 300
+WRITE_BOUND = 2_000_000
 
 PINNED = [
+    # uncompressed x a level that is exactly one tile (D32: tifffile's contiguous shortcut consumed the endless empty-tile iterator)
+    dict(ny=16, nx=16, layout="YX", ns=1, dtype="uint8", chunks=[16, 16], band_chunk=1, nodata=None, blocksize=[16], compression="none", predictor=None, spill_sz=None, writes_per_chunk=None, stats=True, bigtiff=True, scheduler="sync", workers=2, order_seed=16, data_seed=16, crs="EPSG:3857"),
+    dict(ny=128, nx=128, layout="SYX", ns=2, dtype="int16", chunks=[64, 64], band_chunk=1, nodata=-9999, blocksize=[64], compression="none", predictor=False, spill_sz=1024, writes_per_chunk=2, stats=False, bigtiff=False, scheduler="threads", workers=4, order_seed=17, data_seed=17, crs="EPSG:32633"),
+    dict(ny=143, nx=16, layout="YXS", ns=4, dtype="uint16", chunks=[200, 200], band_chunk=1, nodata=None, blocksize=None, compression="none", predictor=None, spill_sz=None, writes_per_chunk=None, stats=True, bigtiff=False, scheduler="sync", workers=2, order_seed=18, data_seed=18, crs="EPSG:4326"),
     # incompressible tiles > 4 KiB x spill threshold 4 KiB: an un-started left section above the minimum write size merges with a right section that already spilled (C05-2)
     dict(ny=256, nx=256, layout="YX", ns=1, dtype="uint8", chunks=[64, 64], band_chunk=1, nodata=None, blocksize=[64], compression="deflate", predictor=None, spill_sz=4096, writes_per_chunk=None, stats=False, bigtiff=True, scheduler="sync", workers=2, order_seed=14, data_seed=14, crs="EPSG:3857"),
     dict(ny=256, nx=200, layout="SYX", ns=2, dtype="uint16", chunks=[64, 64], band_chunk=1, nodata=None, blocksize=[64, 32], compression="zstd", predictor=None, spill_sz=4096, writes_per_chunk=2, stats=True, bigtiff=True, scheduler="threads", workers=4, order_seed=15, data_seed=15, crs="EPSG:32633", dest="s3"),
